@@ -16,7 +16,10 @@ structure IdCertD where
   issuer : Bytes
   subject : Bytes
   validity : X509.Validity
+  notBefore : X509.Civil
+  notAfter : X509.Civil
   keyAlg : KeyAlg
+  keyUnused : Nat
   keyBits : Bytes
   basicCa : Option Bool
   ski : Bytes
@@ -109,15 +112,15 @@ def decodeTbsId (raw : Bytes) (signature : Bytes) : Option IdCertD :=
               match takeName r2 with
               | none => none
               | some (issuer, r3) =>
-                match takeValidity r3 with
+                match takeValidityCivil r3 with
                 | none => none
-                | some (validity, r4) =>
+                | some (notBefore, notAfter, r4) =>
                   match takeName r4 with
                   | none => none
                   | some (subject, r5) =>
                     match takePublicKey r5 with
                     | none => none
-                    | some (keyAlg, _, keyBits, r6) =>
+                    | some (keyAlg, keyUnused, keyBits, r6) =>
                       let exts : Option IdExts :=
                         match takeOptCons 0xA3 r6 with
                         | .bad => none
@@ -133,7 +136,8 @@ def decodeTbsId (raw : Bytes) (signature : Bytes) : Option IdCertD :=
                         match e.ski with
                         | none => none
                         | some ski =>
-                          some { serial, issuer, subject, validity, keyAlg, keyBits, basicCa := e.basicCa, ski,
+                          some { serial, issuer, subject, validity := ⟨civilToEpoch notBefore, civilToEpoch notAfter⟩,
+                                 notBefore, notAfter, keyAlg, keyUnused, keyBits, basicCa := e.basicCa, ski,
                                  aki := e.aki, tbs := raw, signature }
 
 /-- `IdCert::from_constructed` on the content of the certificate SEQUENCE -/
@@ -161,6 +165,7 @@ def decodeIdCert (b : Bytes) : Option IdCertD :=
 structure MsgCrlD where
   innerParam : Bool
   outerParam : Bool
+  issuer : Bytes
   thisUpdate : X509.Civil
   nextUpdate : X509.Civil
   revoked : Bytes
@@ -225,7 +230,7 @@ def decodeTbsMsgCrl (raw : Bytes) : Option MsgCrlD :=
       | some (innerParam, r1) =>
         match takeName r1 with
         | none => none
-        | some (_, r2) =>
+        | some (issuer, r2) =>
           match Manifest.takeTime r2 with
           | none => none
           | some (thisUpdate, r3) =>
@@ -246,7 +251,7 @@ def decodeTbsMsgCrl (raw : Bytes) : Option MsgCrlD :=
                     match foldCons tagSeq msgCrlExtension xs.length xs {} with
                     | none => none
                     | some e =>
-                      some { innerParam, outerParam := innerParam, thisUpdate, nextUpdate, revoked, aki := e.aki,
+                      some { innerParam, outerParam := innerParam, issuer, thisUpdate, nextUpdate, revoked, aki := e.aki,
                              number := e.number, tbs := raw, signature := [] }
 
 /-- `SignedMessageCrl::from_constructed` on the content of the CRL SEQUENCE -/
